@@ -40,7 +40,20 @@ func bvLit(v *big.Int, w int) string {
 func bvU(v uint64, w int) string { return bvLit(new(big.Int).SetUint64(v), w) }
 func bvI(v int64, w int) string  { return bvLit(big.NewInt(v), w) }
 
+var zero64 = "(_ bv0 64)"
+
 func app(op string, args ...string) string {
+	if op == "bvadd" && len(args) == 2 {
+		if args[0] == zero64 {
+			return args[1]
+		}
+		if args[1] == zero64 {
+			return args[0]
+		}
+	}
+	if op == "bvsub" && len(args) == 2 && args[1] == zero64 {
+		return args[0]
+	}
 	return "(" + op + " " + strings.Join(args, " ") + ")"
 }
 
@@ -165,4 +178,13 @@ func sanitize(s string) string {
 		}
 	}
 	return b.String()
+}
+
+// idxAt is the absolute element index off+j, written with the uninterpreted function `at` (axiomatised as bvadd)
+// so that quantifier patterns over slice elements do not contain interpreted arithmetic.
+func idxAt(off, j string) string {
+	if off == zero64 {
+		return j
+	}
+	return "(at " + off + " " + j + ")"
 }
